@@ -1,3 +1,4 @@
+import Firebolt.Properties.TransBase
 import Firebolt.Model.Limiter
 import Firebolt.Properties.C07
 import Firebolt.Generated.Skeleton
@@ -125,6 +126,39 @@ theorem source_kcStart : GeneratedSrc.kcStart = ExpectedSrc.kcStart := by rfl
 
 /-! ### influence closure: the pinned functions, and every function of the repository that writes a struct field or package
 variable they read, are unchanged (digests regenerated from /repo on every run; a difference names the functions) -/
+/-! ### The code itself, translated (`Generated/Trans.lean`, rewritten from /repo on every run by extractor/translate.go)
+
+The `translated_*` theorems are about MiniGo terms the translator produced from the current Go source: for every
+environment the translated fragment does what the hand-written model function says.  They are semantic obligations —
+a rewrite that preserves the behaviour keeps them provable, a changed comparison, bound or argument does not. -/
+section Translated
+open Firebolt.MiniGo Firebolt.TransBase
+
+/-- in the source as it is now, every emission of a recovery record is preceded by a wait on the limiter in the same
+call, and nothing but the emitting branch sends: derived from the translated recoverSingleEvent -/
+theorem translated_emission_after_wait (σ : Env)
+    (ho : 0 ≤ σ "e.TopicPartition.Offset" ∧ σ "e.TopicPartition.Offset" < 2^63)
+    (ht : 0 ≤ σ "recoveryState.toOffset" ∧ σ "recoveryState.toOffset" < 2^63) :
+    (rseSend σ ∈ (obs Trans.recoverSingleEvent σ).calls →
+      ∃ post, (obs Trans.recoverSingleEvent σ).calls = rsePre σ ++ rseWait σ :: post ∧ rseSend σ ∉ rsePre σ) ∧
+    (obs Trans.recoverSingleEvent σ).calls.count (rseSend σ) ≤ 1 := by
+  have h := C07.translated_recoverSingleEvent σ ho ht
+  simp only at h
+  rw [h]
+  cases rdec (σ "lookup rc.activePartitionMap#1" != 0) (σ "recoveryState.fromOffset") (σ "recoveryState.toOffset")
+      (σ "e.TopicPartition.Offset") (σ "rc.updateRequestEvery") with
+  | ignore => simp [rsePre, rseSend, List.count_cons]
+  | complete => simp [rsePre, rseSend, List.count_cons]
+  | emit u =>
+    constructor
+    · intro _
+      refine ⟨[("rc.metrics.RecoveryEvents.WithLabelValues(strconv.Itoa(int(e.TopicPartition.Partition))).Inc", []), rseSend σ] ++
+          (if u then [("rc.tracker.UpdateRecoveryRequest", [σ "e.TopicPartition.Partition", σ "e.TopicPartition.Offset", σ "recoveryState.toOffset"])] else []), ?_, ?_⟩
+      · simp [List.append_assoc]
+      · simp [rsePre, rseSend]
+    · cases u <;> simp [rsePre, rseSend, rseWait, List.count_cons, List.count_append]
+end Translated
+
 theorem closure_unchanged : GeneratedClo.C19 = ExpectedClo.C19 := by rfl
 
 end Firebolt.C19
